@@ -69,6 +69,8 @@ def Abs.subscribe (a : Abs) (client : Str) (s : Sub) : Abs × Bool :=
 def Abs.unsubscribe (a : Abs) (filter client : Str) : Abs × Bool :=
   let ls := splitLevels filter
   if isShare (isolate ls 0).1 then
+    -- "$share" / "$share/group": no topic filter follows — no entry can be meant, nothing changes
+    if !(isolate ls 1).2 then (a, false) else
     let k := (client, (isolate ls 1).1, pathFrom ls 2)
     ({ a with shared := assocDel a.shared k }, (assocGet a.shared k).isSome)
   else
